@@ -198,7 +198,10 @@ def index_case(rng):
                 ss.append(p.assign([p.index(p.id("c0"), p.id("kv"))], [val]))           # key in a register
             ss.append(p.emit([p.str("after-set"), p.str(k)] + [p.call(p.id("rawget"), [p.id(n), p.str(k)]) for n in names]))
         elif r < 0.75:
-            ss.append(p.callstat(p.call(p.id("rawset"), [p.id("c0"), p.str(k), p.str("raw-" + k)])))
+            if rng.random() < 0.5:
+                ss.append(p.callstat(p.call(p.id("rawset"), [p.id("c0"), p.str(k), p.str("raw-" + k)])))
+            else:        # rawset returns its table
+                ss.append(p.emit([p.str("rawset"), p.call(p.id("rawset"), [p.id("c0"), p.str(k), p.str("raw-" + k)])]))
             ss.append(p.emit([p.str("after-rawset"), p.field(p.id("c0"), k)]))
         elif r < 0.9:
             ss.append(p.emit([p.str("method"), p.call(p.id("pcall"), [p.func([], p.block([p.ret([p.method(p.id("c0"), k, [p.num(1)])])]))])]))
@@ -257,6 +260,22 @@ def misc_cases():
                 p.emit([p.call(p.id("tostring"), [p.id("t")])]),
                 p.emit([p.call(p.id("tostring"), [p.num(5)]), p.call(p.id("tostring"), [p.nil()]), p.call(p.id("tostring"), [p.true()]), p.call(p.id("tostring"), [p.str("s")])])]
     mk(tostr)
+
+    def tostr_kinds(p):
+        """__tostring handlers that are callable objects, that return non-strings, and one in the string metatable"""
+        hf = lambda tag, rv: p.func(["self"], p.block([p.emit([p.str(tag), p.call(p.id("type"), [p.id("self")]), p.call(p.id("select"), [p.str("#"), p.dots()])]), p.ret([rv])]), va=True, ud=True)
+        return [p.local(["cobj"], [p.call(p.id("setmetatable"), [p.table([]), p.table([("k", _name(p, "__call"), p.func(["me"], p.block([p.emit([p.str("via __call"), p.call(p.id("select"), [p.str("#"), p.dots()])]), p.ret([p.str("from-callable")])]), va=True, ud=True))])])]),
+                p.local(["t1"], [p.call(p.id("setmetatable"), [p.table([]), p.table([("k", _name(p, "__tostring"), p.id("cobj"))])])]),
+                p.emit([p.str("callable"), p.call(p.id("pcall"), [p.id("tostring"), p.id("t1")])]),
+                p.local(["t2"], [p.call(p.id("setmetatable"), [p.table([]), p.table([("k", _name(p, "__tostring"), hf("h2", p.num(42)))])])]),
+                p.emit([p.str("number result"), p.call(p.id("pcall"), [p.id("tostring"), p.id("t2")])]),
+                p.local(["t3"], [p.call(p.id("setmetatable"), [p.table([]), p.table([("k", _name(p, "__tostring"), hf("h3", p.nil()))])])]),
+                p.emit([p.str("nil result"), p.call(p.id("pcall"), [p.id("tostring"), p.id("t3")])]),
+                p.local(["t4"], [p.call(p.id("setmetatable"), [p.table([]), p.table([("k", _name(p, "__tostring"), p.num(7))])])]),
+                p.emit([p.str("uncallable"), p.call(p.id("select"), [p.num(1), p.call(p.id("pcall"), [p.id("tostring"), p.id("t4")])])]),
+                p.assign([p.field(p.call(p.id("getmetatable"), [p.str("")]), "__tostring")], [hf("hs", p.str("S!"))]),
+                p.emit([p.str("string"), p.call(p.id("tostring"), [p.str("abc")]), p.call(p.id("tostring"), [p.num(5)])])]
+    mk(tostr_kinds)
 
     def protected(p):
         return [p.local(["t"], [p.call(p.id("setmetatable"), [p.table([]), p.table([("k", _name(p, "__metatable"), p.str("locked")),
